@@ -596,18 +596,14 @@ func runC09(r *Run) {
 						}
 					} else {
 						cut := map[edge]bool{}
-						for _, ib := range callsMatching(g, false, nameIs("bytes.IndexByte", "strings.IndexByte")) {
-							hay, isSl := ib.Common.Args[0].(*ssa.Slice)
+						// a search for the next ';' in the same open slice, however it is written (IndexByte == -1, !Contains, …)
+						for _, bs := range byteSearchesIn(g, ';') {
+							hay, isSl := bs.call.Common.Args[0].(*ssa.Slice)
 							if !isSl || hay.High != nil || !sameValue(hay.X, sl.X) || !sameValue(hay.Low, sl.Low) {
 								continue
 							}
-							if b, ok := constInt(asConst(ib.Common.Args[1])); !ok || b != ';' {
-								continue
-							}
-							for _, br := range ifsOnValue(g, ib.Value()) {
-								if s, ok := br.eqIntSlot(-1, true); ok {
-									cut[edge{br.If.Block(), s}] = true
-								}
+							for _, e := range bs.notFound {
+								cut[e] = true
 							}
 						}
 						if len(cut) > 0 {
